@@ -25,6 +25,9 @@ type PropDef struct {
 	// Functions: spec keys "pkgpath-suffix::Key" (e.g. "util::EscapeHTML", "text::(*reader).Advance") or
 	// regexps over display names prefixed with "re:".
 	Functions []string `json:"functions"`
+	// SweepFile: a file under /verif (one spec key per line, # comments): the sweep visits exactly these
+	// functions (instead of a regexp).  Listed functions that no longer exist are reported in the evidence.
+	SweepFile string `json:"sweep_file"`
 	// ThoroughFunctions are added in the thorough tier.
 	ThoroughFunctions []string `json:"thorough_functions"`
 	// Kinds restricts which obligation kinds count for this property (empty: all).
@@ -166,6 +169,7 @@ func runCheck(args []string) int {
 		fmt.Println("BROKEN-MACHINERY bad property definition:", err)
 		return 2
 	}
+	sweepList := readFuncList(verif, pd.SweepFile)
 	seed := 0
 	if s := os.Getenv("VERIF_SEED"); s != "" {
 		seed, _ = strconv.Atoi(s)
@@ -228,8 +232,25 @@ func runCheck(args []string) int {
 	// axioms (facts about package-level variables) used by the functions above: proved as a
 	// postcondition of the package initialiser + "never assigned outside init" (scanGlobalWrites).
 	results = append(results, P.axiomObligations(results)...)
-	if pd.Sweep != "" {
-		re := regexp.MustCompile(pd.Sweep)
+	var listMissing []string
+	if pd.Sweep != "" || len(sweepList) > 0 {
+		re := regexp.MustCompile("^$")
+		if pd.Sweep != "" {
+			re = regexp.MustCompile(pd.Sweep)
+		}
+		inList := map[*ssa.Function]bool{}
+		for _, pat := range sweepList {
+			found := false
+			for _, fn := range P.allFuncs {
+				if matchFunc(pat, fn) {
+					inList[fn] = true
+					found = true
+				}
+			}
+			if !found {
+				listMissing = append(listMissing, pat)
+			}
+		}
 		sk := map[string]bool{}
 		for _, k := range pd.SweepKinds {
 			sk[k] = true
@@ -241,7 +262,7 @@ func runCheck(args []string) int {
 			}
 		}
 		for _, fn := range P.allFuncs {
-			if seen[fn] || !re.MatchString(fnDisplayName(fn)) || isTestutil(fn) {
+			if seen[fn] || !(re.MatchString(fnDisplayName(fn)) || inList[fn]) || isTestutil(fn) {
 				continue
 			}
 			seen[fn] = true
@@ -274,6 +295,7 @@ func runCheck(args []string) int {
 			}
 			r.Obls = keep
 			r.sweepOnly = true
+			r.listed = inList[fn]
 			results = append(results, r)
 		}
 	}
@@ -393,7 +415,7 @@ func runCheck(args []string) int {
 	sort.Slice(results, func(i, j int) bool { return results[i].Name < results[j].Name })
 	for _, r := range results {
 		if r.Unsupported != "" {
-			if r.sweepOnly {
+			if r.sweepOnly && !r.listed {
 				unsupported = append(unsupported, r.Name+": "+r.Unsupported)
 				continue
 			}
@@ -535,6 +557,7 @@ func runCheck(args []string) int {
 			"known_findings_seen":      knownSeen,
 			"havocked_calls":           capList(uniq(havocked), 200),
 			"out_of_subset":            unsupported,
+			"listed_functions_missing": listMissing,
 			"assume_clauses":           nAssume,
 			"not_covered":              pd.NotCovered,
 			"bounded_standins":         pd.Bounded,
@@ -752,6 +775,25 @@ func axiomGlobals(P *Program, a *Axiom) []string {
 }
 
 
+func readFuncList(verif, name string) []string {
+	if name == "" {
+		return nil
+	}
+	b, err := os.ReadFile(filepath.Join(verif, name))
+	if err != nil {
+		return []string{"missing-function-list:" + name}
+	}
+	var out []string
+	for _, ln := range strings.Split(string(b), "\n") {
+		ln = strings.TrimSpace(ln)
+		if ln == "" || strings.HasPrefix(ln, "#") {
+			continue
+		}
+		out = append(out, ln)
+	}
+	return out
+}
+
 // allClaimedPatterns: the union of the function lists of all property definitions.
 func allClaimedPatterns(verif string) []string {
 	var out []string
@@ -774,6 +816,8 @@ func claimedPatternsByProp(verif string) map[string][]string {
 		var pd PropDef
 		if json.Unmarshal(b, &pd) == nil {
 			out[pd.ID] = append(out[pd.ID], pd.Functions...)
+			out[pd.ID] = append(out[pd.ID], pd.ThoroughFunctions...)
+			out[pd.ID] = append(out[pd.ID], readFuncList(verif, pd.SweepFile)...)
 		}
 	}
 	return out
